@@ -21,11 +21,23 @@ class Sock:
         return self._peer
 
 
+class ServerStub:
+    """What Request reads from its server when there is no Host header."""
+    host = '127.0.0.1'
+    port = 8000
+    secure = False
+    display_banner = False
+
+
 def make_request(headers, method='GET', ip='192.0.2.10', path='/'):
     from circuits.web.headers import Headers
     from circuits.web.wrappers import Request, Response
     h = Headers([(k, v) for k, v in headers if v is not None])
-    req = Request(Sock(ip), method, 'http', path, (1, 1), '', h)
+    if 'Host' in h:
+        req = Request(Sock(ip), method, 'http', path, (1, 1), '', h)
+    else:
+        # no Host header: only an HTTP/1.0 request gets as far as the dispatchers
+        req = Request(Sock(ip), method, 'http', path, (1, 0), '', h, server=ServerStub())
     return req, Response(req)
 
 
